@@ -510,7 +510,18 @@ Definition mon_C06 : monitor := fun L s st s' =>
          (a =? amount) && (c <=? D) &&
          (n * D * (x + a) <? y * a * (D - c) + D * (x + a)) &&
          (y * a * (D - c) <? n * D * (x + a) + D * (x + a)) &&
-         (m =? c * (n + m) / D) && (n + m <=? y) && negb (x =? 0) && (n + m + sp =? a * y / x)
+         (m =? c * (n + m) / D) && (n + m <=? y) && negb (x =? 0) && (n + m + sp =? a * y / x) &&
+         (* the QUOTE the pair gave for this very offer in this very state obeys the same laws (the driver attaches a quote
+            only then; a coin of the ask asset riding along changes the reserves after the quote) *)
+         match hs_quote st with
+         | [qn; qs; qm] =>
+             if donated =? 0 then
+               (qm =? c * (qn + qm) / D) && (qn + qm + qs =? amount * y / x) &&
+               (qn * D * (x + amount) <? y * amount * (D - c) + D * (x + amount)) &&
+               (y * amount * (D - c) <? qn * D * (x + amount) + D * (x + amount))
+             else true
+         | _ => true
+         end
      | _ => true
      end in
    match hs_op st with
